@@ -17,6 +17,7 @@ pub const EXTRA: &[char] = &[
     '👏',
     '\u{1f3fd}', // skin tone modifier
     '🇯', '🇵',    // regional indicators
+    '\u{feff}', // byte-order mark (a character like any other for the tools)
     'é', 'ß', '\t', '\u{a0}', '\u{3000}', '_', ':',
     // rewritten by the normaliser without changing their UTF-8 length
     '｣', '､', '･', '｡', '－', '―', '─', '–',
